@@ -5,11 +5,19 @@ vars == <<mode, glob, objs, phase>>
 Init == IF Domain = "maniaconv"
         THEN mode = "osu" /\ glob \in ManiaGlobals /\ objs = <<>> /\ phase = "root"
         ELSE mode \in {"osu", "taiko", "catch", "mania"} /\ glob \in Globals /\ objs = <<>> /\ phase = "root"
-Next == \/ /\ phase = "root" /\ objs = <<>>
+(* Domain "runs": one object repeated 3 / 8 / 40 times at gap 0 (all at one timestamp), 1 ms or 125 ms - stacks and streams *)
+RunNext == /\ Domain = "runs" /\ phase = "root" /\ objs = <<>>
+           /\ \E k \in Kinds, p \in {"c", "same"}, z \in {"mid", "stat"}, d \in {"d0", "d1", "d125"}, r \in {3, 8, 40} :
+                /\ (z = "stat" => k = "S")
+                /\ objs' = [i \in 1..r |-> [k |-> k, t |-> IF i = 1 THEN "s1" ELSE d, p |-> p, z |-> z]]
+                /\ phase' = "objs"
+           /\ UNCHANGED <<mode, glob>>
+Next == \/ RunNext
+        \/ /\ Domain # "runs" /\ phase = "root" /\ objs = <<>>
            /\ \/ (objs' = <<>> /\ phase' = "empty")
               \/ (\E o \in (IF Domain = "maniaconv" THEN ManiaFirst ELSE FirstObjs) : objs' = <<o>> /\ phase' = "objs")
            /\ UNCHANGED <<mode, glob>>
-        \/ /\ phase = "objs" /\ Len(objs) < MaxObjs
+        \/ /\ Domain # "runs" /\ phase = "objs" /\ Len(objs) < MaxObjs
            /\ \E o \in (IF Domain = "maniaconv" THEN ManiaNext ELSE NextObjs) : objs' = Append(objs, o)
            /\ UNCHANGED <<mode, glob, phase>>
 Printer == phase # "root" => PrintT(<<"REPLAY", ToJson([domain |-> Domain, mode |-> mode, glob |-> glob, objs |-> objs])>>)
